@@ -254,7 +254,9 @@ TruncateOK(s, n, ell, t) ==
 TF(b) == IF b THEN "t" ELSE "f"
 
 DirContract(d, v, out) ==
-  IF ~InRange(d) \/ ~Printable(v) THEN "u"
+  IF ~InRange(d) THEN "u"
+  ELSE IF d.name = "json" THEN JsonEncodes(out, v)
+  ELSE IF ~Printable(v) THEN "u"
   ELSE LET s == ToText(v) IN
   CASE d.name \in {"noAutoescape", "id"} -> TF(out = s)
     [] d.name \in HtmlProducing ->
@@ -265,7 +267,6 @@ DirContract(d, v, out) ==
          ELSE LET r == UriDecode(out) IN IF r.ok = "unknown" THEN "u" ELSE TF(r = DecOK(s))
     [] d.name = "escapeJsString" ->
          IF ~JsSafe(out) THEN "f" ELSE IF ~JsKnown(out) THEN "u" ELSE TF(JsDenote(out) = s)
-    [] d.name = "json" -> JsonEncodes(out, v)
     [] d.name = "truncate" ->
          IF ~AllKnown(s, 1) THEN "u" ELSE TF(TruncateOK(s, TruncN(d), TruncEll(d), out))
 
